@@ -36,6 +36,12 @@ class ULEB:
 uleblen = z3.Function("uleblen", z3.IntSort(), z3.IntSort())
 
 
+def uleblen_def(t):
+    """Length of the minimal unsigned LEB128 encoding of t in [0, 2^35): 1 + one byte per further 7-bit group."""
+    one, zero = z3.IntVal(1), z3.IntVal(0)
+    return 1 + sum((z3.If(t >= 2 ** (7 * k), one, zero) for k in (1, 2, 3, 4)), zero)
+
+
 class ChunkIO:
     """Stand-in for io.BytesIO that records what is written, chunk by chunk."""
 
